@@ -89,8 +89,9 @@ proof {
         "contract": """    requires name.wf(), zone_wf(*self),
     ensures r is Some <==> is_suffix(self.apex.labels@, name.labels@),
         r is Some ==> lookup_ok(r->Some_0, self.records, *name, qtype, rel_labels(*name, self.apex), true), // [C02:lookup_algorithm_at_apex]
-        r is Some ==> owners_ok(r->Some_0, *name), // [C02,C10:answer_records_owned_by_the_query_name]""",
-        "entry": "broadcast use lemma_result_owners;"},
+        r is Some ==> owners_ok(r->Some_0, *name), // [C02,C10:answer_records_owned_by_the_query_name]
+        r is Some ==> answer_typed(r->Some_0, qtype), // [C02,C10:answer_records_have_the_asked_type]""",
+        "entry": "broadcast use lemma_result_owners, lemma_result_typed;"},
 }
 
 SPEC2 = """
@@ -165,6 +166,7 @@ ZONES_SPECS = {
         r is Some ==> most_specific(*self, *name, r->Some_0.0.apex) && *r->Some_0.0 == self.zones@[r->Some_0.0.apex], // [C01,C02:most_specific_enclosing_zone_is_chosen]
         r is Some ==> lookup_ok(r->Some_0.1, r->Some_0.0.records, *name, qtype, rel_labels(*name, r->Some_0.0.apex), true), // [C02:lookup_algorithm_at_apex]
         r is Some ==> owners_ok(r->Some_0.1, *name), // [C02,C10:answer_records_owned_by_the_query_name]
+        r is Some ==> answer_typed(r->Some_0.1, qtype), // [C02,C10:answer_records_have_the_asked_type]
         r is None ==> forall|k: DomainName| #[trigger] self.zones@.contains_key(k) ==> !is_suffix(k.labels@, name.labels@), // [C01,C02:no_zone_only_when_none_encloses_the_name]"""},
 }
 
@@ -187,6 +189,8 @@ def build(G):
     zone_types(G, with_zones=True)
     G.file(os.path.join(PRELUDE, "hash.rs"))
     G.raw(OWNERS_OK_RS, ("spec", "owners_ok"))
+    G.raw(QMATCH_RS, ("spec", "qmatch"))
+    G.raw(ANSWER_TYPED_RS, ("spec", "answer_typed"))
     G.file(os.path.join(VERIF, "units", "zone_lookup.spec.rs"))
     G.raw(SPEC2, ("spec", "zone_lookup spec2"))
     T, Z = G.src(TYPES), G.src(ZTYPES)
